@@ -125,6 +125,14 @@ CHECKS["C12"] = dict(
     note="Trusted: TLC, the wrappers in verif_access.go, the lua-run harness. VM protocol preconditions assumed (Pop on non-empty, SetSp(n<=Sp)). One slot of register-file slack per overflow error already raised is admitted.",
     specs=["CallStack", "CallStackImpl", "CallStackTrace", "Registry", "RegistryImpl", "RegistryTrace", "LuaOptions", "LuaLimitsTrace"])
 
+CHECKS["C07"] = dict(
+    technique="TLA+ well-formedness predicate (Bytecode; instruction words decoded inside TLA+) evaluated by TLC on every nested FunctionProto the real parser+compiler emit; TLC model-checks that WF implies safety of an abstract VM (BytecodeVM)",
+    category="model_checking",
+    text="TLC proves WF(p) => no index outside constants/stringConstants/upvalues/prototypes/code/frame, only instruction boundaries dispatched, for all one-instruction prototypes over boundary operands and all code sequences of <=3 words over ~105 well-formed and ill-formed instruction instances; the same predicate is evaluated by TLC on every prototype compiled from the generators' sources and an adversarial family (register/constant/upvalue limits, giant table constructors, jumps near the 18-bit range, deep nesting), including instructions never executed.",
+    design_ref="DESIGN.md section 4 C07",
+    note="Trusted: TLC, Json, the dumper (field copies, 16-bit split, VerifStringConstants), BytecodeVM as a reading of vm.go. MC bound <=3 words; FrameLimit 200; sources compiled, never executed.",
+    specs=["Bytecode", "BytecodeTrace", "BytecodeVM", "BytecodeMC"])
+
 NOT_YET = {}
 
 
